@@ -13,7 +13,8 @@ from vf import common
 STMT_SCOPES = ['def', 'async', 'class']
 EXPR_SCOPES = ['lambda', 'listcomp', 'genexpr', 'dictcomp', 'setcomp']
 BINDERS = ['assign', 'augassign', 'annassign', 'annonly', 'for', 'with', 'except', 'import', 'importas', 'fromimport', 'def', 'class', 'param', 'kwonly',
-           'posonly', 'vararg', 'kwarg', 'walrus', 'match', 'matchstar', 'matchrest', 'del', 'global', 'nonlocal', 'tuple', 'starred', 'comptarget', 'default_self']
+           'posonly', 'vararg', 'kwarg', 'walrus', 'match', 'matchstar', 'matchrest', 'del', 'global', 'nonlocal', 'tuple', 'starred', 'comptarget', 'default_self',
+           'walrus_comp', 'walrus_nested_comp', 'walrus_comp_cond', 'global_multi', 'nonlocal_multi']
 REFPOS = ['expr', 'call', 'default', 'decorator', 'annotation', 'base', 'classkw', 'fstring', 'compiter', 'compcond', 'compelt', 'lambdabody', 'walrusvalue',
           'return', 'attrbase', 'subscript', 'store', 'augstore', 'delete', 'closure_call', 'yield', 'kwvalue', 'compiter2', 'nested_fstring', 'conditional', 'global_read',
           'kwdefault', 'vararg_annotation', 'kwarg_annotation', 'kwonly_annotation', 'posonly_default', 'lambda_default', 'lambda_kwdefault', 'class_decorator',
@@ -53,6 +54,12 @@ def bind_lines(form, name, level_kind):
         return ['class %s:\n    pass' % name]
     if form == 'walrus':
         return ['if (%s := 3):\n    pass' % name]
+    if form == 'walrus_comp':
+        return ['tmp_w_ = [(%s := v_) for v_ in range(3)]' % name]
+    if form == 'walrus_nested_comp':
+        return ['tmp_w_ = [[(%s := v_) * 2 for v_ in range(2)] for row_ in range(2)]' % name]
+    if form == 'walrus_comp_cond':
+        return ['tmp_w_ = [v_ for v_ in range(3) if (%s := v_) is not None]' % name]
     if form == 'match':
         return ['match 4:\n    case %s:\n        pass' % name]
     if form == 'matchstar':
@@ -197,7 +204,12 @@ def build(stmt_kinds, expr_kinds, bind_level, binder, ref_pos, subject, decoys=T
             return None
         body_at[0] += ['%s = 100' % subject]
         body_at[bind_level] += ['global %s' % subject, '%s = 1' % subject]
-    elif binder == 'nonlocal':
+    elif binder == 'global_multi':
+        if bind_level == 0:
+            return None
+        body_at[bind_level] += ['global %s, other_g1_, other_g2_' % subject, '%s = 1' % subject, 'other_g1_ = 2', 'other_g2_ = 3', 'print(other_g1_, other_g2_)']
+        body_at[depth] += ['print("g")'] if False else []
+    elif binder in ('nonlocal', 'nonlocal_multi'):
         if bind_level < 2 or stmt_kinds[bind_level - 1] == 'class':
             return None
         # needs an enclosing function binding
@@ -208,8 +220,12 @@ def build(stmt_kinds, expr_kinds, bind_level, binder, ref_pos, subject, decoys=T
                 break
         if outer is None:
             return None
-        body_at[outer] += ['%s = 50' % subject]
-        body_at[bind_level] += ['nonlocal %s' % subject, '%s = 1' % subject]
+        if binder == 'nonlocal_multi':
+            body_at[outer] += ['%s = 50' % subject, 'other_n1_ = 51', 'other_n2_ = 52']
+            body_at[bind_level] += ['nonlocal %s, other_n1_, other_n2_' % subject, '%s = 1' % subject, 'other_n1_ = 2', 'other_n2_ = 3']
+        else:
+            body_at[outer] += ['%s = 50' % subject]
+            body_at[bind_level] += ['nonlocal %s' % subject, '%s = 1' % subject]
     else:
         body_at[bind_level] += bind_lines(binder, subject, None)
     # decoys: same name in other scopes, renamer-pool names, builtin shadow
